@@ -292,9 +292,25 @@ func runC18Case(tier string, seed uint64, idx int, keepDir string) *CaseResult {
 		permInit = true
 		res.Cov["pairs_permanent_crop_after_itself_as_initial_crop"]++
 	}
+	// a permanent crop followed by itself under another cultivar name: from its second cut on the stand is entered with a
+	// cultivar whose parameter file the project supplies (a copy of the shipped file under the cultivar's name); the override
+	// and the file edit then address that second file (15 % of the cases with a permanent crop grown as consecutive cuts)
+	cultivar := false
+	if rcv := NewRng(mix(mix(seed, uint64(idx)), 1821)); c13Permanent[cf[0]] && target+1 < len(sc.Rotation) && sc.Rotation[target+1].Crop == cf[0] && rcv.Bool(0.3) {
+		for i := target + 1; i < len(sc.Rotation) && sc.Rotation[i].Crop == cf[0]; i++ {
+			sc.Rotation[i].Variety = "vx"
+		}
+		target++
+		cultivar = true
+		res.Cov["pairs_permanent_crop_continued_under_another_cultivar_file"]++
+	}
 	te := sc.Rotation[target]
 	fileName := cropParamFileName(te.Crop, te.Variety, true)
-	cp, err := hermes.ReadCropParamFromFile(filepath.Join(paramDir, fileName))
+	srcName := fileName
+	if cultivar {
+		srcName = cropParamFileName(te.Crop, "", true)
+	}
+	cp, err := hermes.ReadCropParamFromFile(filepath.Join(paramDir, srcName))
 	if err != nil {
 		res.Status = "skipped"
 		res.Err = err.Error()
@@ -340,7 +356,7 @@ func runC18Case(tier string, seed uint64, idx int, keepDir string) *CaseResult {
 		if k > 0 {
 			kd = kinds[r.Intn(len(kinds))]
 		}
-		if permInit && k == 0 && r.Bool(0.7) {
+		if (permInit || cultivar) && k == 0 && r.Bool(0.7) {
 			kd = kinds[5+r.Intn(2)] // the initial N concentrations: only used when a crop does not continue a stand
 		}
 		if history && k == 0 && r.Bool(0.5) {
@@ -377,7 +393,7 @@ func runC18Case(tier string, seed uint64, idx int, keepDir string) *CaseResult {
 		if err := linkParamFolder(dir, map[string]bool{fileName: true}); err != nil {
 			return err
 		}
-		c2, _ := hermes.ReadCropParamFromFile(filepath.Join(paramDir, fileName))
+		c2, _ := hermes.ReadCropParamFromFile(filepath.Join(paramDir, srcName))
 		if edit {
 			for _, o := range ovs {
 				o.apply(&c2)
